@@ -353,3 +353,36 @@ Proof.
 Qed.
 
 End PyEqMember.
+
+(* ---------- the tight reading of Any entails the annotation reading ---------- *)
+Section AnyMono.
+Variable sub : cls -> cls -> bool.
+
+Lemma member_any_mono t : forall v, member false sub v t = true -> member true sub v t = true.
+Proof.
+  induction t as [ | c | x IH | | x IH | x IH | x IH | a b IHa IHb | a b IHa IHb | xs IH | x IH
+                 | a1 a2 a3 IH1 IH2 IH3 | xs IH | r o IHr IHo | s ] using ty_ind';
+    intros v M; try exact M; try reflexivity.
+  - (* TType *) cbn [member] in *. destruct v; try discriminate M. destruct x; try exact M. reflexivity.
+  - cbn [member] in *. destruct v; try discriminate M. revert M. apply forallb_imp. auto.
+  - cbn [member] in *. destruct v; try discriminate M. revert M. apply forallb_imp. auto.
+  - cbn [member] in *. destruct v; try discriminate M; revert M; apply forallb_imp; intros kv _ H;
+      apply andb_prop in H; destruct H; apply andb_true_intro; split; auto.
+  - cbn [member] in *. destruct v; try discriminate M; revert M; apply forallb_imp; intros kv _ H;
+      apply andb_prop in H; destruct H; apply andb_true_intro; split; auto.
+  - destruct v; try discriminate M. rewrite member_TTuple in *.
+    revert es M. induction xs as [|x xs IHxs]; intros [|e es] M; try discriminate M; try exact M.
+    inversion IH; subst. apply andb_prop in M. destruct M as [M1 M2]. apply andb_true_intro; split; auto.
+  - cbn [member] in *. destruct v; try discriminate M. revert M. apply forallb_imp. auto.
+  - rewrite member_TUnion in *. apply existsb_exists in M. destruct M as [x [Hx Mx]].
+    apply existsb_exists. exists x. split; [exact Hx|]. rewrite Forall_forall in IH. auto.
+  - rewrite member_TTypedDict in *. destruct v; try discriminate M.
+    apply andb_prop in M. destruct M as [MA MB]. apply andb_true_intro; split; [|exact MB].
+    revert MA. apply forallb_imp. intros [kk vv] _. cbn [fst snd]. destruct kk; try (intros; discriminate).
+    unfold field_ty. intros H.
+    destruct (lookup_f s r) as [ft|] eqn:Lr.
+    + rewrite Forall_forall in IHr. apply (IHr _ (lookup_f_In _ _ _ Lr)). exact H.
+    + destruct (lookup_f s o) as [ft|] eqn:Lo; [|discriminate H].
+      rewrite Forall_forall in IHo. apply (IHo _ (lookup_f_In _ _ _ Lo)). exact H.
+Qed.
+End AnyMono.
